@@ -188,7 +188,14 @@ impl GitVcs {
 
     /// Get all tags pointing to a commit hash
     fn get_all_tags_from_commit_hash(&self, commit_hash: &str) -> Vec<String> {
-        match self.run_git_command(&["tag", "--points-at", commit_hash]) {
+        // --no-column / --sort: the listing must not depend on the user's column.ui and tag.sort settings
+        match self.run_git_command(&[
+            "tag",
+            "--no-column",
+            "--sort=refname",
+            "--points-at",
+            commit_hash,
+        ]) {
             Ok(tags_output) => tags_output
                 .lines()
                 .map(|line| line.trim().to_string())
@@ -252,7 +259,9 @@ impl GitVcs {
 
     /// Check if working directory is dirty
     fn is_dirty(&self) -> Result<bool> {
-        let output = self.run_git_command(&["status", "--porcelain"])?;
+        // --untracked-files: status.showUntrackedFiles=no must not hide untracked files
+        let output =
+            self.run_git_command(&["status", "--porcelain", "--untracked-files=normal"])?;
         Ok(!output.is_empty())
     }
 
